@@ -266,7 +266,9 @@ def run_with(N, names, refine=False):
     events = []
     try:
         with contextlib.redirect_stdout(buf):
-            s = Solver(p, SolverParameters(eps=0.02 if N == 1 else 0.1, r=2.5, itersLimit=(25 if N < 3 else 20) * (8 if refine else 1),
+            long_run = cfg["env"] in ("lin",)
+            s = Solver(p, SolverParameters(eps=(0.02 if N == 1 else 0.1) if not long_run else 0.0, r=2.5,
+                                           itersLimit=((25 if N < 3 else 20) * (8 if refine else 1)) if not long_run else 700,
                                            refineSolution=refine))
             for nm in names:
                 if nm == "rec":
@@ -388,6 +390,10 @@ def run(ctx):
     for N in (1, 2, 3):
         allN = [n for n in names if specs[n][0] == N]
         stasks.append(dict(N=N, names=["rec"] + allN))
+        # a long run (700 trials, minimum at the end of the curve) with a recorder and each console mode
+        if N == 1:
+            stasks.append(dict(N=1, names=["rec", "env:lin:B1"]))
+            stasks.append(dict(N=1, names=["rec", "console-custom-N1", "env:lin:B1"]))
         # an objective that is exactly 0.0 at its best trial (first trial of |u - 1/2| on [0,1]) and a constant one
         if N == 1:
             for mode in ("full", "custom", "result"):
